@@ -5,13 +5,16 @@ Decides the *tables* the round-trip rests on (not bech32/hex/varuint arithmetic)
      (nibble -> parse_type_N) and what each parser constructs is the identity on the 8 + 2 address types, and equals CIP-19;
  (b) parse_network / From<u8> for Network and Network::value are mutually inverse on the network nibble;
  (c) hrp() tables equal CIP-19 (addr, addr_test, stake, stake_test; other networks -> Err);
- (d) to_header = (typeid << 4) | network.value(); to_vec = header ++ payment ++ delegation (operand order)."""
+ (d) to_header = (typeid << 4) | network.value(); to_vec = header ++ payment ++ delegation (operand order).
+The reader-side tables (dispatch, parse_network, From<u8>) and to_header are decided on the *induced* table: the tabulated path
+conditions/results are evaluated (pv.finite) over the whole 8-bit domain, so `& 0xF0`, `>> 4`, match or if-chains are all accepted."""
 import json
 import os
 import re
 from pv.program import Program
 from pv.report import Result, finish
 from pv.tabulate import tabulate, cond_variants
+from pv import finite
 from pv.mir import sym_str, sym_walk
 from pv.facts import VERIF
 
@@ -96,25 +99,42 @@ def run(tier):
         else:
             res.violation(key + "=>%s" % stake_typeid.get(a), "StakeAddress::typeid(%s) = %s but CIP-19 assigns %s" % (a, stake_typeid.get(a), n), where="%s:%s" % (g.file, g.line), rule="R-TABLE")
 
-    # (a2) dispatch: header & 0xF0 -> parser
+    # (a2) dispatch: header byte -> parser, evaluated for all 256 header values (the selector may be spelled `header & 0xF0`,
+    # `header >> 4`, an if-chain, ...: only the induced table counts)
     bta = P.one(r"^pallas_addresses::bytes_to_address$")
+    bpaths = [p for p in tabulate(bta, P, 1024) if p.end == "return"]
+    subj = []
+    for p in bpaths:
+        for c in p.conds:
+            if c[0][0] not in ("discr", "variant"):
+                finite.leaves(c[0], subj)
     dispatch = {}
-    for conds, ret in int_table(P, bta):
-        sel = None
-        for d, c in conds:
-            if d[0] == "bin" and d[1] == "BitAnd":
-                mask = [x for x in (d[2], d[3]) if x[0] == "const"]
-                if not mask or int(mask[0][1]) != 0xF0:
-                    res.violation("dispatch:mask", "bytes_to_address dispatches on %s, expected header & 0xF0" % sym_str(d), rule="R-TABLE")
-                if c[0] == "eq":
-                    sel = int(c[1])
-        if sel is None or ret is None:
-            continue
-        callee = ret[1] if ret[0] == "call" else None
-        if callee:
-            dispatch[sel >> 4] = callee
-            if sel & 0x0F:
-                res.violation("dispatch:low-bits:%d" % sel, "dispatch constant %#x has network bits set" % sel, rule="R-TABLE")
+    if len(subj) != 1:
+        res.violation("dispatch:subject", "bytes_to_address does not select the parser from one header value (selectors: %s)" % [sym_str(x, 60) for x in subj], rule="R-TABLE")
+    else:
+        tab = finite.table_over(bpaths, subj[0], range(256))
+        by_type = {}
+        for h, rows in tab.items():
+            outs = set()
+            for p in rows:
+                if p.ret is not None and p.ret[0] == "call":
+                    outs.add(p.ret[1])
+                elif p.ret is not None and p.ret[0] == "agg" and p.ret[2] == "Err":
+                    outs.add(None)
+                else:
+                    outs.add("?" + sym_str(p.ret, 60) if p.ret is not None else "?")
+            by_type.setdefault(h >> 4, {})[h & 0x0F] = outs
+        res.count("header values evaluated against the dispatch conditions", len(tab))
+        for n, per_net in sorted(by_type.items()):
+            alls = set()
+            for o in per_net.values():
+                alls |= o
+            if len(alls) != 1 or any(len(o) != 1 for o in per_net.values()):
+                res.violation("dispatch:low-bits:%d" % n, "the parser chosen for address type %d depends on the network bits or is ambiguous: %s" % (n, sorted(map(str, alls))), rule="R-TABLE")
+                continue
+            callee = alls.pop()
+            if callee is not None:
+                dispatch[n] = callee
     res.floor("dispatch rows", len(dispatch), 11)
     # (a3) what each parser builds, composed with typeid
     for n in range(16):
@@ -189,30 +209,51 @@ def run(tier):
     fv = P.one(r"^pallas_addresses::Network::value$")
     fu = P.one(r"^<pallas_addresses::Network as core::convert::From<u8>>::from$")
     val = net_table(fv, False)
+    vo = val.get("Other")
+    value_other_ok = vo is not None and vo[0] == "field" and vo[2] in (0, "0")
     for name, f_, masked in (("parse_network", pn, True), ("From<u8>", fu, False)):
-        t = net_table(f_, True)
+        # evaluated for all 256 argument values: which Network is built, and with which payload
+        npaths = [p for p in tabulate(f_, P, 1024) if p.end == "return"]
+        subject = ("param", 1, f_.local_name(1))
+        tab = finite.table_over(npaths, subject, range(256))
+        res.count("argument values evaluated against %s" % name, len(tab))
+        got = {}     # id -> set of (variant, payload value)
+        for x, rows in tab.items():
+            nid = x & 0x0F if masked else x
+            for p in rows:
+                r = p.ret
+                if r is None or r[0] != "agg" or not str(r[1]).endswith("::Network"):
+                    got.setdefault(nid, set()).add(("?" + (sym_str(r, 60) if r is not None else ""), None))
+                    continue
+                pay = None
+                if r[3]:
+                    try:
+                        pay = finite.ev(r[3][0], lambda s_, x=x: x if s_ == subject else (_ for _ in ()).throw(finite.NotFinite(s_)))
+                    except finite.NotFinite:
+                        pay = "?" + sym_str(r[3][0], 60)
+                got.setdefault(nid, set()).add((r[2], pay))
+            if not rows:
+                got.setdefault(nid, set()).add(("<no row>", None))
         for k, want in spec["networks"].items():
-            r = t.get(int(k))
-            v = r[2] if r is not None and r[0] == "agg" else None
+            g = got.get(int(k), set())
+            v = sorted(x[0] for x in g)
             key = "network:%s:%s" % (name, k)
             back = val.get(want)
-            if v == want and back is not None and back[0] == "const" and int(back[1]) == int(k):
+            if g == {(want, None)} and back is not None and back[0] == "const" and int(back[1]) == int(k):
                 res.ok(key, "R-DUAL", "%s(%s) = %s and value(%s) = %s" % (name, k, want, want, k))
             else:
-                res.violation(key + "=>%s" % v, "%s maps network id %s to %s and Network::value maps %s back to %s: not inverse / not CIP-19" % (name, k, v, want, sym_str(back) if back else None),
+                res.violation(key + "=>%s" % (v[0] if len(v) == 1 else v), "%s maps network id %s to %s and Network::value maps %s back to %s: not inverse / not CIP-19" % (name, k, v, want, sym_str(back) if back else None),
                               where="%s:%s" % (f_.file, f_.line), rule="R-DUAL")
-        r = t.get("other")
         key = "network:%s:other" % name
-        if r is not None and r[0] == "agg" and r[2] == "Other":
-            payload = r[3][0]
-            okp = (payload[0] == "bin" and payload[1] == "BitAnd" and any(x[0] == "const" and int(x[1]) == 0x0F for x in payload[2:])) if masked else (payload[0] == "param")
-            vo = val.get("Other")
-            if okp and vo is not None and vo[0] == "field" and vo[2] in (0, "0"):
-                res.ok(key, "R-DUAL", "Other carries the %s id and value() returns that field" % ("masked" if masked else "given"))
-            else:
-                res.violation(key, "%s builds Other(%s) / value(Other) = %s: the network nibble does not round-trip" % (name, sym_str(payload), sym_str(vo) if vo else None), rule="R-DUAL")
-        else:
+        rest = [i for i in got if str(i) not in spec["networks"]]
+        bad = [(i, sorted(map(str, got[i]))) for i in rest if got[i] != {("Other", i)}]
+        if rest and not bad and value_other_ok:
+            res.ok(key, "R-DUAL", "every other id n is kept as Other(n) (%d ids evaluated) and value() returns that field" % len(rest))
+        elif not rest:
             res.violation(key, "%s has no Other(..) arm for the remaining ids" % name, rule="R-DUAL")
+        else:
+            res.violation(key, "%s does not keep the remaining network ids as Other(id) (%s) / value(Other) = %s: the network nibble does not round-trip" % (
+                name, bad[:3], sym_str(vo) if vo else None), rule="R-DUAL")
 
     # (c) hrp
     for kind, rx in (("shelley", r"^pallas_addresses::ShelleyAddress::hrp$"), ("stake", r"^pallas_addresses::StakeAddress::hrp$")):
@@ -242,11 +283,22 @@ def run(tier):
         rows = [p for p in tabulate(f_, P, 16) if p.end == "return"]
         key = "to_header:%s" % kind
         ok = False
-        if len(rows) == 1 and rows[0].ret[0] == "bin" and rows[0].ret[1] == "BitOr":
-            parts = rows[0].ret[2:]
-            shl = [x for x in parts if x[0] == "bin" and x[1] == "Shl" and x[3][0] == "const" and int(x[3][1]) == 4 and x[2][0] == "call" and x[2][1].endswith("::typeid")]
-            net = [x for x in parts if x[0] == "call" and x[1].endswith("Network::value")]
-            ok = bool(shl and net)
+        if len(rows) == 1 and rows[0].ret is not None:
+            # evaluated for all 16 x 16 (typeid, network) nibble pairs
+            def mk(t_, n_):
+                def leaf(s_):
+                    if s_[0] == "call" and s_[1].endswith("::typeid"):
+                        return t_
+                    if s_[0] == "call" and s_[1].endswith("Network::value"):
+                        return n_
+                    raise finite.NotFinite(s_)
+                return leaf
+            try:
+                ok = all(finite.ev(rows[0].ret, mk(t_, n_)) == ((t_ << 4) | n_) for t_ in range(16) for n_ in range(16))
+                lv = finite.leaves(rows[0].ret)
+                ok = ok and any(x[0] == "call" and x[1].endswith("::typeid") for x in lv) and any(x[0] == "call" and x[1].endswith("Network::value") for x in lv)
+            except finite.NotFinite:
+                ok = False
         if ok:
             res.ok(key, "R-PROV", "(typeid() << 4) | network.value()")
         else:
